@@ -57,7 +57,11 @@ def run(model, rep):
             for gname in ('allow_rename_locals', 'allow_rename_globals'):
                 ev = r.event(gname)
                 if ev is None:
-                    rep.violation('C09.GATE', mi.loc(), '%s: %s' % (what, gname), 'the permission gate is not run: bindings keep their default permission', key='C09.GATE|gate|%s|%s|%s' % (gname, label, tainted))
+                    if 'rename' not in names:
+                        # neither the gate nor the renamer runs: skipping work that would change nothing is not a violation
+                        rep.ok('C09.GATE', mi.loc(), '%s: neither %s nor the renamer runs' % (what, gname), 'nothing can be renamed', key='C09.GATE|gate|%s|%s|%s' % (gname, label, tainted))
+                    else:
+                        rep.violation('C09.GATE', mi.loc(), '%s: %s' % (what, gname), 'the renamer runs but the permission gate does not: bindings keep their default permission', key='C09.GATE|gate|%s|%s|%s' % (gname, label, tainted))
                     continue
                 t = model.funcs.get(apirun.imported_callables(model).get(gname, ('', ''))[1])
                 flag = 'rename_locals' if gname.endswith('locals') else 'rename_globals'
@@ -76,7 +80,7 @@ def run(model, rep):
                     rep.check(stage not in names, 'C09.GATE', mi.loc(), '%s: %s %s' % (what, stage, 'runs' if stage in names else 'does not run'), 'not run for a tainted module',
                               '%s runs although the module is tainted: %s' % (stage, 'a new name is introduced into a scope that exec/eval/locals() can see' if stage == 'rename_literals' else 'it relies on the resolution of builtin names'),
                               key='C09.GATE|stage|%s|%s' % (stage, label))
-                order_ok = 'rename' in names and all(g_ in names and names.index(g_) < names.index('rename') for g_ in ('allow_rename_locals', 'allow_rename_globals'))
+                order_ok = 'rename' not in names or all(g_ in names and names.index(g_) < names.index('rename') for g_ in ('allow_rename_locals', 'allow_rename_globals'))
                 rep.check(order_ok, 'C09.GATE', mi.loc(), '%s: rename after both permission gates' % what, 'data-gated renamer runs only after the gates', 'the renamer can run before the permission gates', key='C09.GATE|stage|rename|' + label)
             # ORD: the taint flag is read only after it has been computed
             seq = [t_ for t_ in r.trace if t_[0] in ('call', 'stage', 'read')]
